@@ -40,6 +40,16 @@ func (g *c04Gen) mk(class string) string {
 		lead = fmt.Sprintf("s%d ", i)
 	}
 	toks := []any{tokLit(lead)}
+	if i != g.failAt && g.rng.Intn(7) == 0 {
+		// the ONLY interpolation syntax of this string is an escape that no identifier follows: `$$` before
+		// punctuation, a digit, a space, another `$$`, or the end of the string. It still comes out as one `$`.
+		tails := [][]any{{tokEsc("(date)", "dd")}, {tokEsc("", "dd")}, {tokEsc("@x", "dd")}, {tokEsc("1", "dd")}, {tokEsc(" rest", "dd")},
+			{tokEsc("", "dd"), tokEsc("", "dd")}, {tokEsc("-", "dd"), tokLit("mid"), tokEsc("", "dd")}}
+		toks = append(toks, tails[g.rng.Intn(len(tails))]...)
+		s := spell(toks)
+		g.strings = append(g.strings, [2]any{s, toks})
+		return s
+	}
 	if i == g.failAt {
 		toks = append(toks, tokReq(p))
 	} else {
